@@ -155,6 +155,10 @@ def corruptions(rng, pr):
     # 6. missing field of a closed record
     with_extra([atom_binding(pi, ci, 'tci'), {'eq': [V('tcrec'), {'rec': [['p', V('tci')]]}]},
                 {'eq': [V('tcz'), {'sub': V('tcrec'), 'field': 'zz'}]}], 'missing-field-of-closed-record')
+    # 6b. the same after a valid access to the record (the closed record has already met an open one)
+    with_extra([atom_binding(pi, ci, 'tci'), {'eq': [V('tcrec'), {'rec': [['p', V('tci')], ['q', V('tci')]]}]},
+                {'eq': [V('tcok'), {'sub': V('tcrec'), 'field': 'p'}]},
+                {'eq': [V('tcz'), {'sub': V('tcrec'), 'field': 'zz'}]}], 'missing-field-after-valid-access')
   if strf:
     ps, cs = rng.choice(strf)
     # 8. a string used in arithmetic inside the *second* aggregating expression of a body
